@@ -2,6 +2,7 @@ package main
 
 import (
 	"fmt"
+	"strings"
 	"sync/atomic"
 
 	"verif/harness/internal/refgen"
@@ -34,6 +35,7 @@ var c16Elems = []struct {
 	{"anon", "struct{ X int }", false},
 	{"pint", "*int", false},
 	{"Inner2", "Inner2", false},
+	{"error", "error", true},
 }
 
 type c16Meta struct {
@@ -92,11 +94,18 @@ func familyC16(thorough bool) []*scen.Cell {
 	return cells
 }
 
+func firstCompileError(e *Env, o *scen.Outcome) string {
+	if errs := e.Analyze(o).compileErrors(); len(errs) > 0 {
+		return errs[0].Msg
+	}
+	return ""
+}
+
 func init() {
 	register("C16", "model_checking", func(e *Env) {
 		th := e.Rep.Thorough()
 		cells := familyC16(th)
-		e.Rep.Rule("element pairs E_src x E_dst over {int, int64, string, MyInt, Status, ext.EInt, Inner, *Inner, interface{}, Namer, []int, map[string]int, *int, Inner2} (quick: 8x8) x {unnamed, named slice type on the source / destination / both sides} x :typecast {off, on} x source offered by {field, getter under :getter} x style {return, arg}; " +
+		e.Rep.Rule("element pairs E_src x E_dst over {int, int64, string, MyInt, Status, ext.EInt, Inner, *Inner, interface{}, error, Namer, []int, map[string]int, *int, Inner2} (quick: 10x10) x {unnamed, named slice type on the source / destination / both sides} x :typecast {off, on} x source offered by {field, getter under :getter} x style {return, arg}; " +
 			"static: assigned iff elements assignable, or convertible and :typecast (reference ladder), no element conversion without :typecast; dynamic (reflect driver): for every slice value {nil, [a,b] cap 4, empty non-nil, [a], [a,b,c], two fields sharing one backing array} x destination-before {zero, dirty}: " +
 			"same length, element i equals the (converted) source element, for len > 0 the backing arrays differ and a write through either slice is invisible through the other, nil source => destination is its previous value or nil; " +
 			"non-trivial = accepted element pair executed with a non-empty source slice")
@@ -147,6 +156,11 @@ func init() {
 				skipped[why]++
 				bc.mu.Unlock()
 				t.Family(o.Cell.Family, false, false)
+				if strings.HasPrefix(why, "output does not compile") {
+					// an accepted slice pair whose copy cannot even be built has no behaviour to judge: reported here as well as by C01
+					m := o.Cell.Meta.(c16Meta)
+					fs = append(fs, report.Finding{Key: fmt.Sprintf("C16|not-executable|does-not-compile|named=%d|typecast=%d", m.Named, m.Typecast), What: "accepted slice cell does not compile, the copy cannot be executed: " + firstCompileError(e, o)})
+				}
 				return fs
 			}
 			bc.add(spec, o.Cell)
